@@ -112,8 +112,9 @@ def rank_call(vals, nx, ny, scalex, scaley, variant):
     import pyrepseq as prs
     data = [np.nan if v == -1 else float(v) for v in vals]
     data = [data, np.array(data), pd.Series(data, index=[f"c{i}" for i in range(len(data))])][variant % 3]
+    extra = [{}, dict(color="k"), dict(where="post", lw=0.5), dict(transform_x=None, transform_y=None)][variant % 4]
     ret = prs.plotting.rankfrequency(data, ax=axes(), normalize_x=nx, normalize_y=ny, scalex=scalex, scaley=scaley,
-                                     log_x=bool(variant % 2), log_y=bool(variant % 2))
+                                     log_x=bool(variant % 2), log_y=bool(variant % 2), **extra)
     line = ret[0]
     return [float(x) for x in line.get_xdata()], [float(y) for y in line.get_ydata()]
 
@@ -138,7 +139,7 @@ def replay_scatter(ctx, doc, n):
     ys = [p[1] * 2 - 1 for p in doc["vals"]]
     ctx.case(dict(fn="density_scatter", points=doc["vals"]), nontrivial=len({tuple(p) for p in doc["vals"]}) < len(doc["vals"]))
     try:
-        ax = prs.plotting.density_scatter(xs, ys, ax=axes(), discrete=True, sort=bool(n % 2))
+        ax = prs.plotting.density_scatter(xs, ys, ax=axes(), discrete=True, sort=bool(n % 2), **([{}, dict(s=4), dict(cmap="viridis")][n % 3]))
         coll = ax.collections[-1]
         got = sorted((round(float(o[0]), 9), round(float(o[1]), 9), int(c)) for o, c in zip(coll.get_offsets(), coll.get_array()))
     except Exception as e:      # noqa: BLE001
@@ -181,7 +182,8 @@ def make_sessions(ctx, n, heat):
             ev = dict(op="Colors", labels=labels, minc=minc, hls=hls, cols=[], raised=False)
             try:
                 np.random.seed(sid)
-                ev["cols"] = intern_colours(fn(np.array(names) if sid % 3 else names, min_count=minc or None))
+                kw = dict(palette_kws=dict(l=0.35, s=0.9)) if (hls and sid % 8 >= 4) else {}
+                ev["cols"] = intern_colours(fn(np.array(names) if sid % 3 else names, min_count=minc or None, **kw))
             except Exception as e:      # noqa: BLE001
                 ev.update(raised=True, exc=f"{type(e).__name__}: {e}"[:200])
         elif typ == 1:
@@ -213,6 +215,13 @@ def make_sessions(ctx, n, heat):
                 kw = dict(alpha_column="cdr3a", beta_column=None) if single else dict(alpha_column="cdr3a", beta_column="cdr3b")
                 if sid % 4 == 0:
                     kw.update(meta_columns=["donor"])
+                if sid % 5 == 0:
+                    import matplotlib.colors as mcolors
+                    kw.update(norm=mcolors.Normalize(0, 12), cbar_kws=dict(label="d", orientation="vertical"))
+                if sid % 7 == 0:
+                    kw.update(bounds=np.arange(0, 9, 2))
+                if sid % 8 == 0:
+                    kw.update(meta_columns=["donor"], meta_to_colors=[prs.plotting.labels_to_colors_tableau, prs.plotting.labels_to_colors_tableau])
                 cg, link, cluster = prs.plotting.similarity_clustermap(df, **kw)
                 ev["order"] = [int(i) + 1 for i in cg.dendrogram_row.reordered_ind]
                 ev["data2d"] = [[int(v) for v in row] for row in np.asarray(cg.data2d).tolist()]
@@ -227,6 +236,18 @@ def make_sessions(ctx, n, heat):
                 _FIG.clear()
         out.append(dict(sid=sid, events=[ev]))
     return out, side
+
+
+def _replay_item(ctx, i, item):
+    n, doc, logos = item
+    k = doc["kind"]
+    if k == "align":
+        replay_align(ctx, doc, n, logos)
+    elif k == "rank":
+        replay_rank(ctx, doc, n)
+    else:
+        replay_scatter(ctx, doc, n)
+    ctx.traces += 1
 
 
 def run(ctx):
@@ -245,22 +266,19 @@ def run(ctx):
     res = run_cfg(ctx, "summaries", cfg_text(["align", "rank", "scatter"], maxlen=3, maxseqs=3 if q else 4, maxrank=4 if q else 5, maxpoints=4))
     n = 0
     nlogo = 0
-    for doc in ctx.sample([d for d in res.printed if d.get("kind")], 40000):
+    items = []
+    for doc in ctx.sample([d for d in res.printed if d.get("kind")], 120000):
         k = doc.get("kind")
-        if not k:
-            continue
         n += 1
         if k == "align":
             if q and n % 3:
                 continue
             logos = (n % (150 if q else 40) == 0)
             nlogo += logos
-            replay_align(ctx, doc, n, logos)
-        elif k == "rank":
-            replay_rank(ctx, doc, n)
+            items.append((n, doc, logos))
         else:
-            replay_scatter(ctx, doc, n)
-        ctx.traces += 1
+            items.append((n, doc, False))
+    ctx.parallel(items, _replay_item, chunk=500)
     ctx.extra["seqlogos_cases"] = nlogo
     ctx.exhaustive = True
     sessions, side = make_sessions(ctx, 60 if q else 400, 8 if q else 60)
